@@ -221,8 +221,9 @@ class Program(object):
 
     def registered(self, npad, keys=None):
         """The program as DECLARED by the driver (what was written in the decorators; for registry
-        points the registration order of the implementations), padded to npad.  The enabled flag
-        and ignore sets are read back from dr (they are set through its API)."""
+        points the registration order of the implementations; the enabled flags and ignore sets it
+        asked dr to set), padded to npad.  Nothing is read back from dr: a change that corrupts the
+        registries must not reach the specification through the trace's own description of the program."""
         out = []
         for c in range(1, self.n + 1):
             p = self.case["prog"][c - 1]
@@ -235,10 +236,10 @@ class Program(object):
             out.append({"kind": kind, "decl": [], "req": req, "grp": grp, "flat": flat,
                         "outc": p["outc"], "eouts": list(p["eouts"]) + ["val"] * (self.listlen - len(p["eouts"])),
                         "coe": bool(p["coe"]),
-                        "enabled": bool(dr.is_enabled(o)), "seeded": bool(p["seeded"]),
+                        "enabled": bool(p["enabled"]), "seeded": bool(p["seeded"]),
                         "ingraph": bool(p["ingraph"]) if keys is None else (c in keys),
                         "target": bool(p["ingraph"]),
-                        "ignore": sorted(self.cid(x) for x in dr.IGNORE.get(o, []))})
+                        "ignore": sorted(p["ignore"])})
         while len(out) < npad:
             out.append({"kind": "plain", "decl": [], "req": [], "grp": [], "flat": [], "outc": "val",
                         "eouts": ["val"] * self.listlen, "coe": True, "enabled": False, "seeded": False,
